@@ -1084,6 +1084,8 @@ fn compare_misc(pre: &Obs, post: &Obs, eff: &Effect, a: &Action, names: &Names, 
         for x in [&l_after, &b_after].into_iter().flatten() {
             all.insert(x.0.clone());
         }
+        let mut short_old: Option<(String, String)> = None;
+        let mut excess = false;
         for d in all {
             let owed = eq.get(&d).copied().unwrap_or(0);
             let mut newly = 0u128;
@@ -1106,19 +1108,25 @@ fn compare_misc(pre: &Obs, post: &Obs, eff: &Effect, a: &Action, names: &Names, 
             // C10: nothing lost, nothing duplicated (carried fee included)
             if pend + dp != owed || post.pool_of(&d) < pre.pool_of(&d) {
                 f.push(Finding::new("C10.fee_conservation", "buy", m.clone()));
-                // C13: a fee recorded before a switch keeps its denomination and amount
-                if d != pre.fee_denom() {
-                    f.push(Finding::new(
-                        "C13.recorded_fee_changed",
-                        "buy",
-                        format!("{m} — {d} is not the denomination in force ({}): a fee recorded before the switch was altered", pre.fee_denom()),
-                    ));
+                if pend + dp < owed && d != pre.fee_denom() {
+                    short_old = Some((d.clone(), m.clone()));
+                }
+                if pend + dp > owed {
+                    excess = true;
                 }
             }
             // C06: the fee of THIS trade is accounted for in full and nothing beyond what is owed is taken
             if pend + dp < newly || pend + dp > owed {
                 f.push(Finding::new("C06.fee_recorded", "buy", m));
             }
+        }
+        // C13: a fee recorded before a switch keeps its denomination — it must not reappear in the new one
+        if let (Some((d, m)), true) = (&short_old, excess) {
+            f.push(Finding::new(
+                "C13.recorded_fee_changed",
+                "buy",
+                format!("{m} — the fee recorded in {d} before the switch shrank while another denomination got more than it is owed"),
+            ));
         }
         // each side's pending fee must not exceed what that side owes, and must be in a denomination it owes
         let lwant = eff.fee_new.0.clone();
